@@ -1012,6 +1012,9 @@ BASE_MODELS = [
     (R(r"^<(i|u)(\d+|size) as TryFrom<(i|u)(\d+|size)>>::try_from$"), m_int_try_from),
     (R(r" as Fn(Mut|Once)?<.*>>::call(_mut|_once)?$"), m_fn_call),
     (R(r"^core::num::<impl i\d+>::abs$|^core::num::<impl isize>::abs$"), m_int_abs),
+    (R(r"^core::num::<impl i(\d+|size)>::unsigned_abs$"), lambda ex, st, c, a, d: iter([(st, Sc(z3.simplify(z3.If(a[0].e < 0, -a[0].e, a[0].e)), "u" + a[0].ty[1:]))])),
+    (R(r"^core::num::<impl i(\d+|size)>::saturating_abs$"), lambda ex, st, c, a, d: iter([(st, Sc(z3.simplify(
+        z3.If(a[0].e >= 0, a[0].e, z3.If(a[0].e == ty_range(a[0].ty)[0], z3.IntVal(ty_range(a[0].ty)[1]), -a[0].e))), a[0].ty))])),
     (R(r"^<&?(i|u)(\d+|size) as (Div|Rem)(<.*>)?>::(div|rem)$"), m_int_divrem),
     (R(r"^<(i|u)(\d+|size) as Default>::default$"), m_int_default),
     (R(r"^<(i|u)(\d+|size) as PartialOrd>::partial_cmp$"), m_int_partial_cmp),
